@@ -379,10 +379,11 @@ Proof.
     { intros p. cbv zeta. pose proof (property_lo (fst p) _ _ H) as HPr.
       rewrite (top_sch_lo _ _ HPr), (top_type_lo _ _ HPr).
       destruct HPr as [|x y ? ? Hxy _]; [reflexivity|]. now rewrite (lo_l_unk _ _ Hxy). }
+    pose proof (contains_unknowns_lo _ _ H) as EU.
     destruct H as [|l1 l2 c1 c2 Hl Hc]; [reflexivity|].
     rewrite ET, (lo_l_unk _ _ Hl). destruct (l_unk l2); [reflexivity|].
     destruct Hl as [sec unk sc x y Hs|sec unk sc e1 e2 He|sec unk sc p1 p2 Hp]; try reflexivity.
-    rewrite EK.
+    rewrite EK, EU.
     match goal with |- context [filter ?p1 props] =>
       match goal with |- _ = (Nat.eqb (_ + _ + length (filter ?p2 props)) 0, _) =>
         replace (filter p1 props) with (filter p2 props) end end; [reflexivity|].
